@@ -103,6 +103,17 @@ Theorem C01_step_read_dir : forall (s : fsys) (sv : sview) (cs : list str),
   obs_sim (proj_res Linux (read_dir s (sv_view sv) (abs_path cs))) (go_read_dir s sv (abs_path cs)).
 Proof. exact step_read_dir. Qed.
 
+(* Rename of a file or symbolic link to a name that does not exist yet (any directories, any links on the way) *)
+Theorem C01_step_rename_new :
+  forall (s : fsys) (sv : sview) (wo : list str) (clo : str) (wn : list str) (cln : str) (np : nat) (md : bool),
+  step_hyps s sv -> path_ok s sv SlLstat (wo ++ [clo]) -> path_ok s sv SlLstat (wn ++ [cln]) ->
+  source_not_dir s sv (wo ++ [clo]) ->
+  klookup s sv false false (abs_path (wn ++ [cln])) = WNeg np cln md ->
+  let o := abs_path (wo ++ [clo]) in
+  let n := abs_path (wn ++ [cln]) in
+  (fst (rename s (sv_view sv) o n), proj_res Linux (snd (rename s (sv_view sv) o n))) = go_rename s sv o n.
+Proof. exact step_rename_new. Qed.
+
 (* WriteFile: OpenFile(O_WRONLY|O_CREATE|O_TRUNC), Write, Close - against open(2) with the same flags + write *)
 Theorem C01_step_write_file : forall (s : fsys) (sv : sview) (w : list str) (cl : str) (data : list N) (perm : N),
   step_hyps s sv -> path_ok s sv SlLstat (w ++ [cl]) -> path_ok s sv SlEval (w ++ [cl]) ->
